@@ -358,7 +358,57 @@ def unif_oracle(case):
     return {"nt": n >= 8, "labels": labels}
 
 
+def enum_sizes(tier):
+    ms = [31, 32, 33, 127, 128, 129, 255, 256, 257] if tier == "quick" else \
+        [31, 32, 33, 63, 64, 65, 127, 128, 129, 255, 256, 257, 511, 512, 513,
+         1023, 1024, 1025, 4097]
+    for m in ms:
+        yield {"m": m, "n": 4, "ties": False}
+        yield {"m": m, "n": 3, "ties": True}
+    for n in ([33, 64, 129] if tier == "quick" else [33, 64, 129, 257, 513]):
+        yield {"m": 3, "n": n, "ties": True}
+
+
+def sizes_oracle(case):
+    """Member / forecast counts at and around powers of two against the
+    mid-rank reference."""
+    n, m = case["n"], case["m"]
+    rng = np.random.RandomState(n * 10000 + m)
+    sim = rng.normal(size=(n, m)) * 3
+    if case["ties"]:
+        sim = np.round(sim * 2) / 2
+    else:
+        # distinct values, well separated from each other
+        sim = (np.argsort(np.argsort(sim.ravel())).reshape(n, m)
+               / 2.0).astype(np.float64)
+    obs = rng.permutation(n).astype(np.float64) + 0.25
+    fmat, ranks = np.zeros((n, n)), np.zeros(n)
+    ierr = c_hydrodiy_stat.ensrank(1e-6, sim.copy(), fmat, ranks)
+    F, R = ref_ranks(sim)
+    if ierr != 0 or not np.allclose(np.triu(fmat, 1), F, atol=1e-12,
+                                    rtol=0) \
+            or not np.allclose(ranks, R, atol=1e-12, rtol=0):
+        raise Violation(f"ensrank on {n} forecasts x {m} members: ierr "
+                        f"{ierr}, ranks {ranks.tolist()[:6]} vs mid-rank "
+                        f"reference {R.tolist()[:6]}")
+    D = metrics.dscore(obs, sim.copy())
+    if np.std(R) > 0:
+        ref = (np.corrcoef(rankdata(obs) - 1, R)[0, 1] + 1) / 2
+        if abs(D - ref) > 1e-12:
+            raise Violation(f"dscore on {n} x {m}: {D!r} != {ref!r}")
+    p, s_ = metrics.pit(obs.copy(), sim.copy())
+    cnt = (sim < obs[:, None]).sum(axis=1)
+    right = (sim <= obs[:, None]).sum(axis=1)
+    e = (cnt + right + (right > cnt)) / 2 / m
+    if not np.allclose(p, e, atol=1e-12):
+        raise Violation(f"pit on {n} x {m} members differs from the "
+                        "percentile score")
+    return {"nt": True, "labels": [f"m:{m}", f"n:{n}"]}
+
+
 SUBS = [
+    Sub("C10.sizes-around-powers-of-two", sizes_oracle, enumerate=enum_sizes,
+        shards=(8, 16)),
     Sub("C10.ensrank+dscore", rank_oracle, strategy=rank_case,
         n=(1000, 10000), shards=(8, 16)),
     Sub("C10.pit+alpha", pit_oracle, strategy=pit_case,
